@@ -136,6 +136,8 @@ class HistContainer(IndexedContainer):
         self._unprocessed_entries = []
 
     def _get_error_reference(self):
+        if self._unprocessed_entries:  # process outstanding entries
+            self._fill_unprocessed()
         return self._data[1:-1]
 
     # -- public properties
@@ -238,6 +240,10 @@ class HistContainer(IndexedContainer):
             self._unprocessed_entries += list(entries)
         except TypeError:
             self._unprocessed_entries.append(entries)
+        # the bin contents change: reset member error references and the cached total error
+        for _err_dict in self._error_dicts.values():
+            _err_dict["err"].reference = self._get_error_reference
+        self._clear_total_error_cache()
 
     def rebin(self, new_bin_edges):
         """
